@@ -197,10 +197,23 @@ type ev struct {
 	tool int
 	id   string
 	name string
-	fr   string
+	fr   string // finish, or a content-carrying chunk (text/start/args) that also closes the completion
+	us   bool   // a content-carrying chunk that also carries the usage object
 }
 
 func (e ev) String() string {
+	if e.kind != "finish" && (e.fr != "" || e.us) {
+		c := e
+		c.fr, c.us = "", false
+		s := c.String()
+		if e.fr != "" {
+			s += "+finish(" + e.fr + ")"
+		}
+		if e.us {
+			s += "+usage"
+		}
+		return s
+	}
 	switch e.kind {
 	case "text":
 		return fmt.Sprintf("text(%q)", e.text)
@@ -220,7 +233,14 @@ func (e ev) String() string {
 func sseLine(e ev) string {
 	j := func(v any) string { b, _ := json.Marshal(v); return string(b) }
 	chunk := func(delta map[string]any, fr any) string {
-		return "data: " + j(map[string]any{"id": "c1", "object": "chat.completion.chunk", "model": "m-stream", "choices": []any{map[string]any{"index": 0, "delta": delta, "finish_reason": fr}}}) + "\n\n"
+		if e.kind != "finish" && e.fr != "" {
+			fr = e.fr
+		}
+		doc := map[string]any{"id": "c1", "object": "chat.completion.chunk", "model": "m-stream", "choices": []any{map[string]any{"index": 0, "delta": delta, "finish_reason": fr}}}
+		if e.us {
+			doc["usage"] = map[string]any{"prompt_tokens": 11, "completion_tokens": 7, "total_tokens": 18}
+		}
+		return "data: " + j(doc) + "\n\n"
 	}
 	switch e.kind {
 	case "text":
@@ -256,6 +276,12 @@ func expectOf(seq []ev) expect {
 	var x expect
 	last := ""
 	for _, e := range seq {
+		if e.kind != "finish" && e.fr != "" {
+			x.stop = e.fr
+		}
+		if e.us {
+			x.in, x.out = 11, 7
+		}
 		switch e.kind {
 		case "text":
 			x.text += e.text
@@ -545,7 +571,10 @@ func e1(depth int, contiguous bool) {
 		nexts := []ev{{kind: "text", text: "a"}, {kind: "text", text: "é🌍"},
 			{kind: "start", tool: ntools, id: fmt.Sprintf("call_%d", ntools), name: fmt.Sprintf("fn%d", ntools)},
 			{kind: "start", tool: ntools, id: fmt.Sprintf("call_%d", ntools), name: fmt.Sprintf("fn%d", ntools), text: `{"k":`},
-			{kind: "finish", fr: "stop"}, {kind: "finish", fr: "tool_calls"}, {kind: "finish", fr: "length"}, {kind: "usage"}, {kind: "malformed"}, {kind: "done"}, {kind: "comment"}}
+			{kind: "finish", fr: "stop"}, {kind: "finish", fr: "tool_calls"}, {kind: "finish", fr: "length"}, {kind: "usage"}, {kind: "malformed"}, {kind: "done"}, {kind: "comment"},
+			// backends that close the completion on a chunk that still carries content: the last text piece, or a whole tool call
+			{kind: "text", text: "z", fr: "length", us: true},
+			{kind: "start", tool: ntools, id: fmt.Sprintf("call_%d", ntools), name: fmt.Sprintf("fn%d", ntools), text: `{"k":"w"}`, fr: "tool_calls", us: true}}
 		if contiguous {
 			if lastTool >= 0 && seq[len(seq)-1].kind != "text" { // fragments follow their own start (contiguous per call), possibly after non-content lines
 				nexts = append(nexts, ev{kind: "args", tool: lastTool, text: `"v"}`})
